@@ -182,7 +182,8 @@ type StInfo struct {
 }
 
 func (e *ParserData) AddStModify(op string, text string) {
-	e.WriteCode(typeStModify, StInfo{op, text})
+	// 原文不包含表达式之后被解析器顺带吃掉的空白
+	e.WriteCode(typeStModify, StInfo{op, trimExprText(text)})
 }
 
 func (e *ParserData) AddStore(text string) {
